@@ -70,6 +70,12 @@ def run(ctx):
                                    case=dict(model=case['m'], cfg=case['cfg'], variant=v), observed=obs, expected=exp))
             continue
         sc.judge(ctx, case, v, obs, 'run() rows/index vs Euler/Heun iterates')
+    # code -> spec: the recorded right-hand-side calls of real runs must be a behaviour of Solver.tla
+    import random
+    from .. import solvertrace
+    sel = [c for c in cases if c['cfg']['solver'] != 'scipy']
+    random.Random(ctx.seed).shuffle(sel)
+    solvertrace.check(ctx, 'C03', sel, sc.KNOWN_DEVS, sc.FINDING_OF, cap=300 if tier == 'quick' else 3000)
     for c in cases[7::max(1, len(cases) // 3)][:3]:
         ctx.sample(dict(model=c['m'], cfg=c['cfg'], expected_rows=c['expM'][:6]))
     pinned(ctx)
